@@ -51,6 +51,9 @@ def run(F, rep, tier):
     # is a dependency edge (the C11 instances)
     import c11
     c11.dependency_visit(F, rep)
+    # the types the checker works with for library functions are the ones their Lua definitions have
+    import c18
+    c18.library_typing(F, rep)
 
 
 def copy_discipline(F, rep, only_declaration=False, only_generalised=False):
@@ -62,7 +65,7 @@ def copy_discipline(F, rep, only_declaration=False, only_generalised=False):
         copy_discipline(F, scratch)
         for o in scratch.obs:
             if o["key"].startswith(("expression|Read|variable-type", "environment|")) or o["key"].endswith("|insertions") or \
-                    (o["rule"] == "COPY" and ("|Type::" in o["key"] or "|Constraint::" in o["key"])) or \
+                    (o["rule"] == "COPY" and ("|Type::" in o["key"] or "|Constraint::" in o["key"] or o["key"].endswith("|no-early-return"))) or \
                     (o["rule"] == "COPY" and o["key"].startswith("expression|") and "|is-a-declaration" not in o["key"]
                      and not o["key"].startswith(("expression|Variant", "expression|Blob|"))) or \
                     o["key"] == "expression|-|result-of-any-expression":
@@ -206,6 +209,43 @@ def _environment_shared(F, rep, copier):
            fn["sp"])
     if not seeded_from:
         return
+    from flow import uncond_nodes
+    from engines import _drops_elements
+    # .. all of them: the walk starts from every variable in that set (a filter in front of it lets some go: a global
+    # `seen := []` whose element type is still open is copied with every function that pushes into it) ..
+    starts = [x for x in nodes(body) if x.get("k") == "Field" and x["name"] == seeded_from]
+    dropped = False
+    for x, parents in walk(body):
+        if x.get("k") == "MethodCall" and x["m"] in ("filter", "skip", "take", "step_by", "skip_while", "take_while", "filter_map") and \
+                any(f_ is y for f_ in starts for y in nodes(x["recv"])):
+            dropped = True
+    rep.ob("COPY", "environment|every-variable-of-the-surroundings-is-a-start", not dropped,
+           "the reachability walk starts from every variable in `self.%s`" % seeded_from if not dropped else
+           "the reachability walk filters `self.%s` before it starts: the variables left out are copied with every function that "
+           "mentions them (`seen := []`, `note :: fn v do list.push(seen, v) end`, `note(1)`, `note(\"two\")` is accepted)" % seeded_from,
+           fn["sp"])
+    # .. and every node the walk reaches is kept as it is - known or not: a known `fn int -> int` still has an open purity
+    loops = [x for x in nodes(body) if x.get("k") in ("While", "Loop", "ForLoop")]
+    keeps = []
+    for lp in loops:
+        lb = lp.get("body")
+        if lp.get("k") == "Loop":
+            # `while let Some(x) = todo.pop()` desugars to loop { match .. { Some(x) => body, None => break } }
+            for m_ in nodes(lp, "Match"):
+                for a_ in m_["arms"]:
+                    if any(c_.get("k") == "MethodCall" and c_["m"] in ("insert",) and peel(c_["recv"]).get("hid") == seen_local
+                           for c_ in nodes(a_["body"])):
+                        lb = a_["body"]
+        if lb is None:
+            continue
+        ins = [c_ for c_ in nodes(lb, "MethodCall") if c_["m"] == "insert" and peel(c_["recv"]).get("hid") == seen_local]
+        for c_ in ins:
+            keeps.append(any(y is c_ for y in uncond_nodes(lb)))
+    rep.ob("COPY", "environment|every-reached-node-is-kept", bool(keeps) and all(keeps),
+           "every node the walk reaches is mapped to itself" if keeps and all(keeps) else
+           "the walk maps a reached node to itself only under a condition (only the still-unknown ones, say): the others are rebuilt "
+           "as copies - and a known function type with an open purity loses what an instance learns about it, so an impure "
+           "function reaches a `pu` parameter through a local function", fn["sp"])
     # .. reachable means: along every edge the copy follows.  The function that lists a node's edges is the sibling of
     # inner_copy and has to name the same payloads
     walkers = {callee(c) for c in nodes(body, "MethodCall") if (callee(c) or "").startswith(TC) and
@@ -217,6 +257,13 @@ def _environment_shared(F, rep, copier):
             continue
         ne += tc.edges_enumerated(F, rep, "COPY", wf, TCM.replace("typechecker::", "ty::") + "Type")
         ne += tc.edges_enumerated(F, rep, "COPY", wf, TCM + "Constraint")
+        # both sources of edges are consulted for every node: no way out of the function between them
+        early = [x for x in nodes(fn_body(wf), "Ret")]
+        rep.ob("COPY", "%s|no-early-return" % last(w), not early,
+               "%s lists the parts of the type and the types its constraints name for every node" % last(w) if not early else
+               "%s returns early (line %s): for those nodes the types their constraints talk about are not followed - exactly the "
+               "still-unknown nodes, which are the ones that carry constraints" % (last(w), (line_of(early[0]) or "?").split(":")[-2]),
+               line_of(early[0]) if early else wf["sp"])
     rep.floor("COPY", "type-graph edges enumerated by the reachability walk", ne, 20)
     # who keeps the surroundings: parameters enter before the body is checked and leave after it; definitions that are not
     # generalised enter
